@@ -280,3 +280,30 @@ Print Assumptions C13_public_canonical_range.
 Print Assumptions C13_laws_satisfiable.
 Print Assumptions C13_instance_laws_proved.
 Print Assumptions C13_instance_laws_remaining.
+
+(* ==== added by the model-mutation audit (notes/MODEL_MUTANTS_B.md, Proofs/AuditC13.v) ============================= *)
+From MRS Require Import Proofs.AuditC13.
+
+(* The "only canonical text" theorems above are stated through the model's hex decoder.  This pins the decoder itself:
+   hex_decode returns b EXACTLY for the case variants of the canonical lower-case text hex_encode b
+   (ascii_lower c := c + 32 for 'A'..'Z', c otherwise; Proofs/AuditC13.v) - no blanks, no prefix, no other letters, no odd length;
+   in particular 'A'..'F' have the values of 'a'..'f' *)
+Theorem C13_hex_accepts_exactly_case_variants : forall t b, hex_decode t = Ok b <-> map ascii_lower t = hex_encode b.
+Proof. exact hex_decode_iff. Qed.
+
+(* hence an accepted key text IS the Display text of the returned key, up to the case of the letters a-f *)
+Theorem C13_secret_text_canonical_up_to_case : forall t s, sk_from_str t = Ok s -> map ascii_lower t = sk_to_string s.
+Proof. exact sk_text_canonical. Qed.
+
+Theorem C13_public_text_canonical_up_to_case_partial : forall (E : EdOps) (LW : EdLaws E) t k,
+  pk_from_str t = Ok k -> map ascii_lower t = pk_to_string k.
+Proof. intros E LW. exact pk_text_canonical. Qed.
+
+Check C13_hex_accepts_exactly_case_variants : forall t b, hex_decode t = Ok b <-> map ascii_lower t = hex_encode b.
+Check C13_secret_text_canonical_up_to_case : forall t s, sk_from_str t = Ok s -> map ascii_lower t = sk_to_string s.
+Check C13_public_text_canonical_up_to_case_partial : forall (E : EdOps) (LW : EdLaws E) t k,
+  pk_from_str t = Ok k -> map ascii_lower t = pk_to_string k.
+
+Print Assumptions C13_hex_accepts_exactly_case_variants.
+Print Assumptions C13_secret_text_canonical_up_to_case.
+Print Assumptions C13_public_text_canonical_up_to_case_partial.
